@@ -1,7 +1,7 @@
 (* C08 - the concurrent machine: threads own disjoint handle sets and interleave at
    micro-operation granularity; invariant preservation per step, induction over the schedule. *)
 From Common Require Import Prelude.
-From C08 Require Import Model Proofs ProofsHist.
+From C08 Require Import Model Proofs ProofsLift ProofsHist.
 Local Open Scope Z_scope.
 
 Definition no_cj (ths : list thread) : Prop := Forall (fun th => f_cj (t_fr th) = None) ths.
@@ -30,9 +30,10 @@ Proof.
 Qed.
 
 Lemma top_frame_ok fz hs o : top_legal fz hs o = true ->
-  frame_ok fz (fst (top_frame fz hs o)) (snd (top_frame fz hs o)) hs /\ f_cj (snd (top_frame fz hs o)) = None.
+  frame_ok fz (fst (top_frame fz hs o)) (snd (top_frame fz hs o)) hs /\
+  (f_cj (snd (top_frame fz hs o)) = None /\ forall k, f_loc (snd (top_frame fz hs o)) k = None).
 Proof.
-  intro L. split; [|destruct o; reflexivity].
+  intro L. split; [|destruct o; split; reflexivity].
   destruct o; simpl in *;
     repeat match goal with H : _ && _ = true |- _ => apply andb_true_iff in H as [? ?] end; auto;
     try (split; auto; try now apply (src_ok_of_live fz)).
@@ -40,7 +41,11 @@ Proof.
   - unfold raw_okP; simpl. now apply src_justified.
 Qed.
 
-Lemma gstep_inv g l : CInv g -> CInv (gstep g l).
+Section Table.
+Variable tbl : meth -> list mop.
+Hypothesis Hc : contracts_ok tbl = true.
+
+Lemma gstep_inv g l : CInv g -> CInv (gstep_t tbl g l).
 Proof.
   intros [I N]. destruct g as [hp fz ths]. simpl in *. destruct l as [t o|t|t a|t o]; simpl.
   - (* a thread enters a member *)
@@ -48,11 +53,11 @@ Proof.
     destruct (is_nil (t_rem th) && top_legal fz (t_hs th) o) eqn:C; [|split; auto].
     apply andb_true_iff in C as [C1 C2]. apply is_nil_true in C1.
     destruct (nth_error_split_upd _ _ _ E) as (l1 & l2 & -> & U).
-    destruct (top_frame_ok _ _ _ C2) as [F J].
+    destruct (top_frame_ok _ _ _ C2) as [F [J Lo]].
     destruct (top_frame fz (t_hs th) o) as [m fr]. simpl in *. rewrite U.
     destruct th as [hs rem fr0']. simpl in *. subst rem.
     split; simpl.
-    + apply (start_step _ _ _ _ _ _ _ _ I F). intros x Ex. congruence.
+    + apply (start_step_t tbl _ _ _ _ _ _ _ _ Hc I F Lo). intros x Ex. congruence.
     + eapply no_cj_replace; eauto.
   - (* one micro-operation *)
     destruct (nth_error ths t) as [th|] eqn:E; [|split; auto].
@@ -73,7 +78,7 @@ Proof.
     destruct (nth_error_split_upd _ _ _ E) as (l1 & l2 & -> & U).
     split; simpl; auto. apply expl_inc_step; auto.
     rewrite (gi_alive _ _ _ I). apply Z.leb_le.
-    pose proof (cnt_lower _ _ _ _ _ o I) as L. pose proof (gi_cre _ _ _ I o) as Hc.
+    pose proof (cnt_lower _ _ _ _ _ o I) as L. pose proof (gi_cre _ _ _ I o) as Hcr.
     pose proof (nhz_nonneg fz o) as Hz.
     destruct th as [hs rem fr]. simpl in *. subst rem. unfold hold in L. simpl in L.
     pose proof (nh_nonneg hs o) as Hn.
@@ -87,7 +92,7 @@ Proof.
     eapply Forall_impl; [|exact N]. intros; auto.
 Qed.
 
-Lemma grun_inv sched : forall g, CInv g -> CInv (grun g sched).
+Lemma grun_inv sched : forall g, CInv g -> CInv (grun_t tbl g sched).
 Proof. induction sched as [|l sched IH]; intros g I; simpl; auto. apply IH. now apply gstep_inv. Qed.
 
 Lemma sum_hold_repeat_idle fz k fr n o : sum_hold fz (repeat (mkT (repeat SDead k) [] fr) n) o = 0.
@@ -105,10 +110,10 @@ Proof.
 Qed.
 
 Definition reach (g : gstate) : Prop :=
-  exists nh0 hist n k sched, g = grun (ginit (run nh0 hist) n k) sched.
+  exists nh0 hist n k sched, g = grun_t tbl (ginit (run_t tbl nh0 hist) n k) sched.
 
 Lemma reach_inv g : reach g -> CInv g.
-Proof. intros (nh0 & hist & n & k & sched & ->). apply grun_inv, ginit_inv, run_inv. Qed.
+Proof. intros (nh0 & hist & n & k & sched & ->). apply grun_inv, ginit_inv, run_inv. exact Hc. Qed.
 
 Lemma sum_hold_split fz ths o : sum_hold fz ths o = sum_handles ths o + sum_trans fz ths o.
 Proof. induction ths as [|th ths IH]; simpl; auto. unfold transients. lia. Qed.
@@ -147,7 +152,7 @@ Proof.
   rewrite Rm in St. simpl in St. destruct St as (_ & Hh & _).
   unfold no_cj in N. apply Forall_app in N as [_ N2]. inversion N2 as [|? ? Nc _]; subst.
   rewrite (gi_alive _ _ _ I). apply Z.leb_le.
-  pose proof (cnt_lower _ _ _ _ _ o I) as L. pose proof (gi_cre _ _ _ I o) as Hc.
+  pose proof (cnt_lower _ _ _ _ _ o I) as L. pose proof (gi_cre _ _ _ I o) as Hcr.
   pose proof (nhz_nonneg (g_fz g) o) as Hz. rewrite hold_holdv in L. rewrite Rm in L.
   pose proof (safe_hold_nonneg (g_fz g) (m :: rem) (t_fr th) (t_hs th) o) as Hn.
   assert (Sf : safe (g_fz g) (m :: rem) (t_fr th) (t_hs th)).
@@ -169,6 +174,8 @@ Proof.
   pose proof (gi_eq _ _ _ I o) as E. unfold cntq in E. pose proof (gi_cre _ _ _ I o).
   pose proof (nhz_nonneg (g_fz g) o). pose proof (sum_hold_nonneg _ _ o (gi_safe _ _ _ I)). lia.
 Qed.
+
+End Table.
 
 (* a delete is logged only by the atomic decrement that returned 0 *)
 Lemma delete_only_by_zero_decrement e o hp x :
